@@ -17,6 +17,7 @@ mkdir -p "$D/verif"
 (cd /verif && tar cf - --exclude=./target --exclude=./.git --exclude=./replays --exclude=./evidence .) | (cd "$D/verif" && tar xf -)
 mkdir -p "$D/verif/replays" "$D/verif/evidence"
 [ -d "$D/target" ] || cp -r /verif/target "$D/target"
+ln -sfn "$D/target" "$D/verif/target"
 grep -rlE "/repo|/verif/target" "$D/verif" --include=Cargo.toml --include=config.toml --include=check --include=c38.py --include=setup.sh --include=selftest \
   | xargs sed -i -e "s#/verif/target#$D/target#g" -e "s#\"/repo/#\"$D/repo/#g" -e "s#cd /repo #cd $D/repo #g" -e "s#-C /repo#-C $D/repo#g"
 export VERIF_REPLAY_DIR="$D/verif/replays" VERIF_EVIDENCE_DIR="$D/verif/evidence" VERIF_SCRATCH="/dev/shm/verif-scratch-iso"
